@@ -21,18 +21,18 @@ Section Values.
 
   Lemma all_values_oset : forall o k v, all_values o = true -> q v = true -> all_values (oset k v o) = true.
   Proof.
-    intros o k v H Hv. induction o as [|[k' v'] o IH]; cbn [oset all_values forallb snd] in *.
+    unfold all_values. intros o k v H Hv. induction o as [|[k' v'] o IH]; simpl in *.
     - now rewrite Hv.
-    - apply andb_true_iff in H. destruct H as [H1 H2]. destruct (str_eqb k k'); cbn [forallb snd].
-      + fold (all_values o). now rewrite Hv, H2.
-      + fold (all_values (oset k v o)). now rewrite H1, IH.
+    - apply andb_true_iff in H. destruct H as [H1 H2]. destruct (str_eqb k k'); simpl.
+      + now rewrite Hv, H2.
+      + now rewrite H1, IH.
   Qed.
 
   Lemma all_values_odel : forall o k, all_values o = true -> all_values (odel k o) = true.
   Proof.
-    intros o k H. induction o as [|[k' v'] o IH]; cbn [odel all_values forallb snd] in *; [reflexivity|].
+    unfold all_values. intros o k H. induction o as [|[k' v'] o IH]; simpl in *; [reflexivity|].
     apply andb_true_iff in H. destruct H as [H1 H2]. destruct (str_eqb k k'); [now apply IH|].
-    cbn [forallb snd]. fold (all_values (odel k o)). now rewrite H1, IH.
+    simpl. now rewrite H1, IH.
   Qed.
 End Values.
 
